@@ -179,6 +179,8 @@ pub struct Gen {
     /// number of input words the program may address
     pub n_inputs: u32,
     size_budget: i64,
+    /// > 0: no diverging sub-expressions (`return`, `?`) may be generated
+    no_div: u32,
 }
 
 const FIELD_NAMES: [&str; 8] = ["g0", "h1", "q2", "k3", "m4", "n5", "r6", "s7"];
@@ -202,6 +204,7 @@ impl Gen {
             next_tag: 1,
             n_inputs: 24,
             size_budget: 400,
+            no_div: 0,
         }
     }
 
@@ -769,10 +772,10 @@ impl Gen {
         if self.scrutinee_available() {
             prods.push(("match", 8));
         }
-        if self.cfg.early_return && !self.in_const && self.loop_depth == 0 {
+        if self.cfg.early_return && !self.in_const && self.loop_depth == 0 && self.no_div == 0 {
             prods.push(("if-ret", 3));
         }
-        if matches!(self.cur_ret, Ty::Opt(_)) && !self.in_const && self.cfg.options {
+        if matches!(self.cur_ret, Ty::Opt(_)) && !self.in_const && self.cfg.options && self.no_div == 0 {
             prods.push(("try", 6));
         }
         if self.cfg.lists && !matches!(ty, Ty::Unit) {
@@ -1170,14 +1173,23 @@ impl Gen {
     }
 
     fn guard_expr(&mut self, d: u32) -> Expr {
+        let avoid = self.cfg.avoid.guard_temps;
+        if avoid {
+            self.no_div += 1;
+        }
+        let mut res = None;
         for _ in 0..8 {
             let g = self.expr(&Ty::Bool, d.min(2), true);
-            if self.cfg.avoid.guard_temps && self.expr_is_heapy(&g) {
+            if avoid && self.expr_is_heapy(&g) {
                 continue;
             }
-            return g;
+            res = Some(g);
+            break;
         }
-        Expr::boolean(self.rng.bool())
+        if avoid {
+            self.no_div -= 1;
+        }
+        res.unwrap_or_else(|| Expr::boolean(self.rng.bool()))
     }
 
     fn call_expr(&mut self, ty: &Ty, d: u32, typed: bool) -> Expr {
@@ -1469,13 +1481,20 @@ impl Gen {
         );
         let cond = if self.rng.chance(2, 3) {
             let mut extra = None;
+            let avoid = self.cfg.avoid.while_cond_temps;
+            if avoid {
+                self.no_div += 1;
+            }
             for _ in 0..8 {
                 let c = self.expr(&Ty::Bool, d.min(2), true);
-                if self.cfg.avoid.while_cond_temps && self.expr_is_heapy(&c) {
+                if avoid && self.expr_is_heapy(&c) {
                     continue;
                 }
                 extra = Some(c);
                 break;
+            }
+            if avoid {
+                self.no_div -= 1;
             }
             match extra {
                 Some(c) => Expr::new(Ty::Bool, EK::Bin(BinOp::And, Box::new(bound), Box::new(c))),
@@ -1587,7 +1606,36 @@ impl Gen {
         true
     }
 
+    /// One statement; if it contains a known-defect pattern that the profile
+    /// avoids, it is regenerated without diverging sub-expressions.
     pub fn stmt(&mut self, d: u32, out: &mut Vec<Stmt>) {
+        if !self.cfg.avoid.diverge_in_partial || self.no_div > 0 {
+            return self.stmt_inner(d, out);
+        }
+        let mark_out = out.len();
+        let mark_scope = self.scopes.last().map(|s| s.len()).unwrap_or(0);
+        self.stmt_inner(d, out);
+        let bad = out[mark_out..].iter().any(|s| match s {
+            Stmt::Let(_, _, e) | Stmt::Expr(e) => self.has_partial_diverge(e),
+        });
+        if bad {
+            out.truncate(mark_out);
+            if let Some(s) = self.scopes.last_mut() {
+                s.truncate(mark_scope);
+            }
+            self.no_div += 1;
+            self.stmt_inner(d, out);
+            self.no_div -= 1;
+        }
+    }
+
+    pub fn has_partial_diverge(&self, e: &Expr) -> bool {
+        let mut bad = false;
+        visit(e, &mut |x| bad |= node_partial_diverge(&self.prog, x));
+        bad
+    }
+
+    fn stmt_inner(&mut self, d: u32, out: &mut Vec<Stmt>) {
         self.size_budget -= 2;
         let d = d.saturating_sub(1);
         let deep = d > 0 && self.size_budget > 0;
@@ -1800,12 +1848,19 @@ impl Gen {
                 }
             }
             let body = if self.cur_kind == FnKind::FilterMap {
+                self.no_div += 1;
                 let r = self.ret_stmt(depth.min(3));
+                self.no_div -= 1;
                 Block { stmts, tail: Some(Box::new(r)) }
             } else if sig.ret == Ty::Unit {
                 Block { stmts, tail: None }
             } else {
-                let tail = self.expr(&sig.ret, depth.min(3), true);
+                let mut tail = self.expr(&sig.ret, depth.min(3), true);
+                if self.cfg.avoid.diverge_in_partial && self.has_partial_diverge(&tail) {
+                    self.no_div += 1;
+                    tail = self.expr(&sig.ret, depth.min(3), true);
+                    self.no_div -= 1;
+                }
                 if self.rng.chance(1, 6) {
                     self.tag("stmt:return-tail".into());
                     stmts.push(Stmt::Expr(Expr::new(Ty::Unit, EK::Ret(RetKind::Return, Some(Box::new(tail))))));
@@ -1938,5 +1993,50 @@ pub fn visit_block(b: &Block, f: &mut dyn FnMut(&Expr)) {
     }
     if let Some(t) = &b.tail {
         visit(t, f);
+    }
+}
+
+pub fn ty_is_heapy(prog: &Program, ty: &Ty) -> bool {
+    match ty {
+        Ty::Str | Ty::List(_) | Ty::Trk | Ty::TrkZ | Ty::Trk1 => true,
+        Ty::Opt(t) => ty_is_heapy(prog, t),
+        Ty::Verdict(a, r) => ty_is_heapy(prog, a) || ty_is_heapy(prog, r),
+        Ty::Anon(fs) => fs.iter().any(|(_, t)| ty_is_heapy(prog, t)),
+        Ty::Named(d, args) => match &prog.types[*d] {
+            TypeDecl::Record { fields, .. } => fields.iter().any(|(_, t)| ty_is_heapy(prog, &t.subst(args))),
+            TypeDecl::Enum { variants, .. } => {
+                variants.iter().any(|(_, ts)| ts.iter().any(|t| ty_is_heapy(prog, &t.subst(args))))
+            }
+        },
+        _ => false,
+    }
+}
+
+pub fn expr_heapy(prog: &Program, e: &Expr) -> bool {
+    let mut h = false;
+    visit(e, &mut |x| h |= ty_is_heapy(prog, &x.ty) || matches!(x.k, EK::FStr(_)));
+    h
+}
+
+pub fn diverges_inside(e: &Expr) -> bool {
+    let mut d = false;
+    visit(e, &mut |x| d |= matches!(x.k, EK::Ret(..) | EK::Try(_)));
+    d
+}
+
+/// Pattern `diverge-in-partial-construct` at one node: a diverging
+/// sub-expression inside a call / constructor / literal / operator that has
+/// already evaluated (or is about to own) heap or tracked values.
+pub fn node_partial_diverge(prog: &Program, e: &Expr) -> bool {
+    match &e.k {
+        EK::Call(_, args) | EK::Host(_, args) | EK::Ctor(_, args) | EK::ListLit(args) => {
+            !args.is_empty() && args.iter().any(diverges_inside) && expr_heapy(prog, e)
+        }
+        EK::Method(r, _, args) => args.iter().any(diverges_inside) && (expr_heapy(prog, e) || expr_heapy(prog, r)),
+        EK::RecLit(_, fs) => fs.iter().any(|(_, a)| diverges_inside(a)) && expr_heapy(prog, e),
+        EK::Bin(_, a, b) => diverges_inside(b) && expr_heapy(prog, a),
+        EK::FStr(ps) => ps.iter().any(|p| matches!(p, FPart::Expr(a) if diverges_inside(a))),
+        EK::Assign(_, v) | EK::CompAssign(_, _, v) => diverges_inside(v) && expr_heapy(prog, v),
+        _ => false,
     }
 }
